@@ -9,6 +9,9 @@ Decided (necessary structural conditions of the behaviour; the behaviour itself 
   BONES    every Bone field is copied from the Havok skeleton array of the same meaning at the same index
   HKNAMES  the Havok member / class names the extraction asks for, and which accessor each goes through
   HKTABLE  value-type codes, vector widths and tag codes of the tag-file format; TRANSFORM lane split 0-3 / 4-7 / 8-11
+  PACKEDINT the tag file's variable-length integers: 6 value bits in the first byte, 7 in each further byte, placed at
+           consecutive bit positions (ranges computed from the masks and shifts, not their spelling); sign bit 0,
+           continuation bit 7
   CHAIN    deformer walk: start item by body id, link by link_index, parent by parent_index, item by deformer_index,
            stop at the target body id or at the root; name[i] is paired with transform[i]
   STRINGS  out-of-line names are read at base offset + table entry
@@ -16,7 +19,7 @@ Decided (necessary structural conditions of the behaviour; the behaviour itself 
   TERA     plate centre = plate_size * (cell + 0.5) per axis, inverse in the writer, 128-unit grid, plate_count = len
   LGB      the constants that place the chunk name (reader heap base, writer heap base, chunk header size, file header
            size) agree for a group without layers; ids and names flow field to field
-Not decided: the tag-file object graph decoding (packed integers, remembered strings/types/objects, struct-of-arrays,
+Not decided: the tag-file object graph decoding (remembered strings/types/objects, struct-of-arrays,
 reference fix-up) beyond its tables; float exactness; layer groups with layers (the writer's name offset is short by
 4 bytes per layer, see DESIGN.md observations; the property only covers the empty group).
 """
@@ -359,6 +362,85 @@ def run(ctx):
             ctx.ob("HKTABLE", "vec-size", m == HK_VEC_SIZE, f"vec_size maps base codes to widths {m}; must be {HK_VEC_SIZE}", vb.file, vb.line)
     else:
         ctx.fail_closed("HKTABLE", "HavokValueType::vec_size not found")
+
+    # ---- PACKEDINT: the variable-length integer's pieces tile the bit positions (no overlap, no gap)
+    pb = prog.body("havok::binary_tag_file_reader::HavokBinaryTagFileReader::<'a>::read_packed_int")
+    if not pb:
+        ctx.fail_closed("PACKEDINT", "read_packed_int not found")
+    else:
+        pix = P.BodyIndex(pb)
+        acc = None
+        for bi, si, st in pb.stmts():
+            rv = st.get("rv") or {}
+            if st["k"] == "assign" and rv.get("k") == "bin" and rv["op"] == "BitOr" and not st["lhs"]["p"]:
+                for x, y in ((rv["a"], rv["b"]), (rv["b"], rv["a"])):
+                    px = op_place(x)
+                    if px and not px["p"] and px["l"] == st["lhs"]["l"]:
+                        acc = (st["lhs"]["l"], y, bi)
+        if not acc:
+            ctx.fail_closed("PACKEDINT", "no `result |= piece << shift` accumulation found")
+        else:
+            res_l, piece, acc_bb = acc
+            rp = pix.resolve(piece)
+            c0 = c1 = ub_piece = ub_first = None
+            if rp[0] == "rv" and rp[1]["k"] == "bin" and rp[1]["op"] in ("Shl", "ShlUnchecked"):
+                ub_piece = P.upper_bound(pix, rp[1]["a"])
+                sh = op_place(rp[1]["b"])
+                # the shift operand is a copy of the shift counter
+                sl = None
+                cur = sh
+                for _ in range(4):
+                    if cur is None or cur["p"]:
+                        break
+                    d = pix.single_def(cur["l"])
+                    if d is None:
+                        sl = cur["l"]
+                        break
+                    if d[0] == "assign" and d[3]["rv"]["k"] in ("use", "cast"):
+                        cur = op_place(d[3]["rv"]["a"])
+                    else:
+                        break
+                if sl is not None:
+                    for d in pix.defs.get(sl, []):
+                        if d[0] != "assign" or d[3]["lhs"]["p"]:
+                            continue
+                        rv = d[3]["rv"]
+                        if rv["k"] == "use" and const_int(rv["a"]) is not None:
+                            c0 = const_int(rv["a"])
+                        elif rv["k"] == "use":
+                            q = op_place(rv["a"])
+                            dd = pix.single_def(q["l"]) if q else None
+                            if dd and dd[0] == "assign" and dd[3]["rv"]["k"] == "bin" and dd[3]["rv"]["op"].startswith("Add"):
+                                c1 = const_int(dd[3]["rv"]["b"]) if const_int(dd[3]["rv"]["b"]) is not None else const_int(dd[3]["rv"]["a"])
+            firsts = [d for d in pix.defs.get(res_l, []) if d[0] == "assign" and not d[3]["lhs"]["p"] and d[1] != acc_bb]
+            if len(firsts) == 1:
+                rv = firsts[0][3]["rv"]
+                ub_first = P.upper_bound(pix, rv["a"]) if rv["k"] in ("use", "cast") else None
+            ctx.extra["packed_int"] = dict(first_piece_bound=ub_first, first_shift=c0, next_piece_bound=ub_piece, shift_step=c1)
+            ctx.ob("PACKEDINT", "first-piece", ub_first is not None and c0 is not None and ub_first == (1 << c0) == 64, f"the first byte contributes values below {ub_first} and the next piece starts at bit {c0}; the format has 6 value bits in the first byte (bit 0 sign, bit 7 continuation)", pb.file, pb.line, sample=True)
+            ctx.ob("PACKEDINT", "next-pieces", ub_piece is not None and c1 is not None and ub_piece == (1 << c1) == 128, f"each further byte contributes values below {ub_piece} and advances the position by {c1}; the format has 7 value bits per continuation byte", pb.file, pb.line)
+        # sign: negation only under (byte & 1) == 1 ; continuation: the loop runs while (byte & 0x80) != 0
+        def masked_test(mask, want_eq_const):
+            def pred(dop, val, par):
+                r = pix.resolve(dop)
+                if r[0] == "rv" and r[1]["k"] == "bin" and r[1]["op"] in ("Eq", "Ne"):
+                    for x, y in ((r[1]["a"], r[1]["b"]), (r[1]["b"], r[1]["a"])):
+                        cy, rx = pix.resolve(y), pix.resolve(x)
+                        if cy[0] == "const" and rx[0] == "rv" and rx[1]["k"] == "bin" and rx[1]["op"] == "BitAnd" and mask in (const_int(rx[1]["a"]), const_int(rx[1]["b"])):
+                            is_true = val == 1 or (isinstance(val, tuple) and val[0] == "not" and val[1] == (0,))
+                            holds_eq = is_true if r[1]["op"] == "Eq" else val == 0
+                            holds_ne = is_true if r[1]["op"] == "Ne" else val == 0
+                            # want: on this edge (byte & mask) == want_eq_const ... for a one-bit mask, != 0 means == mask
+                            if cy[1] == want_eq_const:
+                                return holds_eq
+                            if cy[1] == 0 and want_eq_const == mask:
+                                return holds_ne
+                return False
+            return pred
+
+        neg_bb = [bi for bi, si, st in pb.stmts() if st["k"] == "assign" and st["rv"]["k"] == "un" and st["rv"]["op"] == "Neg"]
+        ctx.ob("PACKEDINT", "sign-bit", len(neg_bb) == 1 and P.guard_dominates(pix, neg_bb[0], masked_test(1, 1)), "the value is negated exactly under (first byte & 1) == 1", pb.file, pb.line)
+        ctx.ob("PACKEDINT", "continuation-bit", bool(acc) and P.guard_dominates(pix, acc[2], masked_test(0x80, 0x80)), "a further byte is consumed exactly while (byte & 0x80) != 0", pb.file, pb.line)
 
     # ---- CHAIN
     gb = prog.body("pbd::PreBoneDeformer::get_deform_matrices")
